@@ -36,6 +36,7 @@ REG = {
                       "running both on generated dependency graphs on every run.",
         "level_note": _NOTE,
         "partial": ["C09.order_independent is conditional on both reads succeeding: with two names differing by case only, whether a read succeeds can depend on the referrer (the generator keeps such twins as leaves; observed on the real code, not a property violation)",
+                    "excluded input class: a reference spelling a case twin exactly, written in a definition the twin's original depends on (the original is off the lookup list while it is read, so the reference resolves there and is a DataTypeNameCollisionError everywhere else): gen_graph does not add the twin then",
                     "error *class* only (which of several faulty files is blamed is a soft field)",
                     "Unicode case folding (`str.lower`) is ASCII in the model"],
         "assumptions": _ASSUME,
@@ -43,7 +44,12 @@ REG = {
     "C10": {
         "module": "Props.C10",
         "suites": [("ns", (2500, 40000))],
-        "rule": _RULE + "30% of the C10 cases are directory-argument sets (nested, same name, names equal up to case, allow/disallow collisions)",
+        "rule": _RULE + "30% of the C10 cases are directory-argument sets: half from a fixed pool (nested, same name, names equal up to case, allow/disallow "
+                "collisions), half sets of 2-6 directories drawn from a universe built around one directory D: D/s, D/s/t, D/s/t/u, siblings whose names extend D's "
+                "name by punctuation sorting below '/' (-ext, +legacy, .old, ' copy', ...) or by characters sorting above it (_v2, 2, s, ...), directories nested "
+                "inside those siblings, the same one level further down, D in another letter case, D in another workspace, the parent of D; 60% of these sets contain "
+                "an ancestor, a descendant and 1-2 look-alike siblings, a quarter of them with the ancestor or descendant removed again (must be accepted); every "
+                "order of the arguments, root and lookups, read_namespace and read_files; 8% of the graph cases are call sequences (see C15)",
         "technique": _TECH,
         "level_text": "Proved in Lean 4 for the model: the target list is exactly the definition files under the root (both extensions, none from "
                       "lookup directories), both result lists are sorted by (name, -major, -minor) and with distinct keys that order is unique; "
@@ -80,7 +86,13 @@ REG = {
         "rule": "80% file-name cases: 1-6 files with well-formed names (port-ID present/absent, versions up to 255, both extensions, depth 0-5, namespace components equal "
                 "to root names), 11% malformed shapes (wrong arity, non-numeric, empty components, dots in directories), 2% names only int() accepts, 5% non-definition "
                 "files; read_namespace and read_files with up to 4 of the spellings: bare root names, relative with chdir, relative without roots, relative target welded "
-                "onto an absolute root, roots / targets via symlink, duplicated and reordered lists, single values, trailing slashes, Path objects; 20% general graphs",
+                "onto an absolute root, roots / targets via symlink, duplicated and reordered lists, single values, trailing slashes, Path objects; 20% general graphs; "
+                "messages and services with port-IDs absent / regulated / unregulated / at both ends of the valid ranges (0, 1, 511, 512, 8191, 8192), 45% of the calls "
+                "with allow_unregulated_fixed_port_id; 35% of the cases are sequences of 2-4 calls made in one process on one tree: the same files read with a directory "
+                "inside a root designated as the root, with the directory above a root designated as the root, with other lookups / targets / flags / spellings, in "
+                "random order; every call of the sequence is judged as if it were the only one (what a fresh process gives). Besides the expected result computed from "
+                "the abstract tree, every returned type is checked on its own: name, version and port-ID are recomputed from source_file_path relative to "
+                "source_file_path_to_root, which must be the designated directory that holds the file",
         "technique": _TECH,
         "level_text": "Proved in Lean 4: parsing `[<port-id>.]<ShortName>.<major>.<minor>.<ext>` returns exactly the rendered components for all names, versions and port-IDs; "
                       "every accepted name has that shape with plain decimal numerals, every other name is a FileNameFormatError; the definition and the composite built from "
